@@ -8,7 +8,7 @@ use std::fs::File;
 use std::io::{BufReader, Read};
 use std::os::fd::FromRawFd;
 
-pub const DISK_CAP: usize = 32;
+pub const DISK_CAP: usize = 36;
 pub static mut DISK: [u8; DISK_CAP] = [0; DISK_CAP];
 pub static mut DLEN: usize = 0;
 pub static mut DPOS: usize = 0;
@@ -87,7 +87,7 @@ fn small_id() -> u64 { 7 }
 //@ symbolic: nothing but the reader's buffer refill behaviour (contents concrete); see c05_record_codec_roundtrip for symbolic ids
 //@ bound: a log of two frames (DeleteNode, TxCommit), 20 bytes
 //@ oracle: reading the log back yields the same two records in order, then end-of-file
-wal_h!(c05_two_frames_read_back, 34, {
+wal_h!(c05_two_frames_read_back, 38, {
     let (nid, tid) = (small_id(), small_id());
     unsafe { DLEN = 0; DPOS = 0; }
     put_frame(&WalRecord::DeleteNode { id: NodeId::new(nid) });
@@ -114,7 +114,7 @@ wal_h!(c05_two_frames_read_back, 34, {
 //@ symbolic: the crash point = byte length L of the file (0..=20)
 //@ bound: a log of two frames (DeleteNode, TxCommit) cut at every byte length
 //@ oracle: no panic; the records returned before the first error/EOF are a prefix of the written sequence; a frame is returned iff it lies completely below L: a torn record is never returned
-wal_h!(c06_torn_tail_every_cut, 34, {
+wal_h!(c06_torn_tail_every_cut, 38, {
     let (nid, tid) = (small_id(), small_id());
     unsafe { DLEN = 0; DPOS = 0; }
     put_frame(&WalRecord::DeleteNode { id: NodeId::new(nid) });
@@ -149,7 +149,7 @@ wal_h!(c06_torn_tail_every_cut, 34, {
 //@ symbolic: the position (any bit of payload or checksum of the frame) of a single flipped bit
 //@ bound: one frame DeleteNode (10 bytes); flips in the 4-byte length field are outside (a flipped length re-frames the stream)
 //@ oracle: a frame with a flipped payload or checksum bit is never returned as a record (it is an error)
-wal_h!(c06_single_bit_flip_detected, 34, {
+wal_h!(c06_single_bit_flip_detected, 38, {
     let nid = small_id();
     unsafe { DLEN = 0; DPOS = 0; }
     put_frame(&WalRecord::DeleteNode { id: NodeId::new(nid) });
@@ -228,7 +228,7 @@ fn torn_once(cut: usize, content: &[u8; 6]) -> bool {
 //@ bound: one frame with a 2-byte payload; crash points strictly inside the frame
 //@ oracle: a record whose frame is torn at any byte is never returned, whatever its bytes; a cut inside the length prefix reads as a clean end of log
 #[kani::proof]
-#[kani::unwind(34)]
+#[kani::unwind(38)]
 #[kani::stub(alloc::fmt::format, fmt_stub)]
 #[kani::stub(<std::fs::File as std::io::Read>::read, file_read_stub)]
 #[kani::stub(<std::fs::File as std::io::Read>::read_buf, file_read_buf_stub)]
@@ -267,7 +267,7 @@ fn torn_once_l<const L: usize, const C: usize>(cut: usize, content: &[u8; C]) ->
 //@ bound: one frame with a 5-byte payload; crash points strictly inside the frame
 //@ oracle: a torn frame is never returned as a record, whatever its bytes
 #[kani::proof]
-#[kani::unwind(34)]
+#[kani::unwind(38)]
 #[kani::stub(alloc::fmt::format, fmt_stub)]
 #[kani::stub(<std::fs::File as std::io::Read>::read, file_read_stub)]
 #[kani::stub(<std::fs::File as std::io::Read>::read_buf, file_read_buf_stub)]
@@ -293,7 +293,7 @@ fn c06_torn_frame_payload5_never_returned() {
 //@ bound: one frame with a 1-byte payload (9 bytes); crash points strictly inside the frame. (A zero-length payload is outside: Kani's allocator model rejects the deallocation of the empty `vec![0u8; 0]`, a modelling artefact.)
 //@ oracle: a torn frame is never returned as a record
 #[kani::proof]
-#[kani::unwind(34)]
+#[kani::unwind(38)]
 #[kani::stub(alloc::fmt::format, fmt_stub)]
 #[kani::stub(<std::fs::File as std::io::Read>::read, file_read_stub)]
 #[kani::stub(<std::fs::File as std::io::Read>::read_buf, file_read_buf_stub)]
@@ -306,4 +306,147 @@ fn c06_torn_frame_payload1_never_returned() {
     let e0 = torn_once_l::<1, 5>(0, &content); torn_once_l::<1, 5>(1, &content); torn_once_l::<1, 5>(2, &content); torn_once_l::<1, 5>(3, &content);
     let e4 = torn_once_l::<1, 5>(4, &content); torn_once_l::<1, 5>(5, &content); torn_once_l::<1, 5>(6, &content); torn_once_l::<1, 5>(7, &content); torn_once_l::<1, 5>(8, &content);
     kani::cover!(e0 && !e4);
+}
+
+// ------------------------------------------------------------------------------------------------------------
+// Framing and checksum logic with the DECODER CUT: `bincode::serde::decode_from_slice` is replaced by a stub
+// that "decodes" any payload into some record (an over-approximation of decoding success). What remains is
+// exactly the part of recovery that decides whether a frame is applied at all: length prefix, payload and
+// checksum reads, end-of-file handling and the CRC comparison.
+// ------------------------------------------------------------------------------------------------------------
+pub fn decode_any<D: serde::de::DeserializeOwned, C: bincode::config::Config>(slice: &[u8], _config: C) -> Result<(D, usize), bincode::error::DecodeError> {
+    // only ever instantiated with D = WalRecord (checked by the size assertion)
+    let r = WalRecord::TxCommit { tx_id: TxId::new(if slice.is_empty() { 0 } else { slice[0] as u64 }) };
+    assert!(std::mem::size_of::<D>() == std::mem::size_of::<WalRecord>());
+    let d: D = unsafe { std::mem::transmute_copy(&r) };
+    std::mem::forget(r);
+    Ok((d, slice.len()))
+}
+
+macro_rules! frame_h {
+    ($name:ident, $body:block) => {
+        #[kani::proof]
+        #[kani::unwind(38)]
+        #[kani::stub(alloc::fmt::format, fmt_stub)]
+        #[kani::stub(<std::fs::File as std::io::Read>::read, file_read_stub)]
+        #[kani::stub(<std::fs::File as std::io::Read>::read_buf, file_read_buf_stub)]
+        #[kani::stub(crc32fast::hash, crc32_model)]
+        #[kani::stub(bincode::serde::decode_from_slice, decode_any)]
+        fn $name() $body
+    };
+}
+
+//@ property: C06
+//@ tier: quick
+//@ cap_s: 900
+//@ mem_gb: 12
+//@ stubs: File::read/read_buf -> symbolic disk, crc32fast::hash -> bitwise CRC-32 model, alloc::fmt::format, bincode::serde::decode_from_slice -> "every payload decodes" (decoder cut)
+//@ encodes: WalRecovery::read_record (via verif_read_record): frame reads, checksum verification
+//@ symbolic: the 3 payload bytes and the 4 stored checksum bytes of a complete frame (every content, i.e. every single- and multi-bit corruption of payload or checksum)
+//@ bound: one complete frame with a 3-byte payload (the size of a commit marker)
+//@ oracle: the frame is returned as a record if and only if the stored checksum equals CRC-32 of the payload; otherwise it is an error: a record that fails its checksum is never applied
+frame_h!(c06_checksum_decides_acceptance, {
+    let payload: [u8; 3] = kani::any();
+    let stored: [u8; 4] = kani::any();
+    unsafe { DLEN = 0; DPOS = 0; }
+    put(&3u32.to_le_bytes()); put(&payload); put(&stored);
+    let rec = WalRecovery::new("w");
+    let mut rd = BufReader::with_capacity(DISK_CAP, a_file());
+    let r = rec.verif_read_record(&mut rd);
+    let good = u32::from_le_bytes(stored) == crc32_model(&payload);
+    assert!(matches!(&r, Ok(Some(_))) == good, "acceptance of a frame disagrees with its checksum");
+    if !good { assert!(r.is_err(), "a frame with a wrong checksum must be an error"); }
+    kani::cover!(good);
+    kani::cover!(!good);
+    std::mem::forget((r, rd, rec));
+});
+
+//@ property: C06
+//@ tier: quick
+//@ cap_s: 900
+//@ mem_gb: 12
+//@ stubs: as c06_checksum_decides_acceptance
+//@ encodes: WalRecovery::read_record (via verif_read_record)
+//@ symbolic: payload (3 bytes) and checksum bytes of the last frame; crash point = every byte length 0..=10 inside the 11-byte frame (unrolled), INCLUDING cuts between payload and checksum and inside the checksum with a correct checksum prefix
+//@ bound: one frame with a 3-byte payload whose stored checksum is the CORRECT one (so a reader that compares only the bytes it managed to read would accept the torn frame)
+//@ oracle: a frame cut at any byte is never returned, even though every byte that is present is correct
+frame_h!(c06_torn_correct_prefix_never_returned, {
+    let payload: [u8; 3] = kani::any();
+    let crc = crc32_model(&payload).to_le_bytes();
+    macro_rules! cut { ($c:expr) => {{
+        unsafe { DLEN = 0; DPOS = 0; }
+        put(&3u32.to_le_bytes()); put(&payload); put(&crc);
+        unsafe { DLEN = $c; }
+        let rec = WalRecovery::new("w");
+        let mut rd = BufReader::with_capacity(DISK_CAP, a_file());
+        let r = rec.verif_read_record(&mut rd);
+        assert!(!matches!(&r, Ok(Some(_))), "a torn record was returned");
+        std::mem::forget((r, rd, rec));
+    }}; }
+    cut!(0); cut!(1); cut!(2); cut!(3); cut!(4); cut!(5); cut!(6); cut!(7); cut!(8); cut!(9); cut!(10);
+    kani::cover!(true);
+});
+
+// (A harness over WalRecovery::recover_file - the replay loop that applies only committed records - was written with a
+// kind-preserving decoder cut, but the Kani compiler crashes on it (intrinsics.rs:243, reached through the tracing::warn!
+// call in the loop); the loop's commit/abort filter is therefore outside the C06 claim.)
+
+// ------------------------------------------------------------------------------------------------------------
+// Writer side: the real WalManager::log over BufWriter<File>, with File writes going to the same disk model and a
+// synced-length watermark (FS contract assumed: bytes below the watermark survive a crash; of the bytes above it any
+// prefix may survive).
+// ------------------------------------------------------------------------------------------------------------
+pub static mut SYNCED: usize = 0;
+pub fn file_write_stub(_f: &mut File, buf: &[u8]) -> std::io::Result<usize> {
+    unsafe { let mut i = 0; while i < DISK_CAP { if i < buf.len() { DISK[DLEN + i] = buf[i]; } i += 1; } DLEN += buf.len(); Ok(buf.len()) }
+}
+pub fn file_flush_stub(_f: &mut File) -> std::io::Result<()> { Ok(()) }
+pub fn file_sync_all_stub(_f: &File) -> std::io::Result<()> { unsafe { SYNCED = DLEN; } Ok(()) }
+pub fn instant_now_stub() -> std::time::Instant { unsafe { std::mem::transmute::<[u64; 2], std::time::Instant>([kani::any::<u32>() as u64, 0]) } }
+
+//@ property: C06
+//@ tier: quick
+//@ cap_s: 900
+//@ mem_gb: 14
+//@ stubs: File::write/flush/sync_all/read/read_buf -> disk model with a synced watermark, Instant::now -> arbitrary, crc32fast::hash -> bitwise CRC-32 model, parking_lot mutex slow paths, alloc::fmt::format, bincode decode -> decoder cut
+//@ encodes: WalManager::log (real bincode ENCODER, framing, size tracking, Sync durability mode: flush + sync_all on a commit marker), then WalRecovery::read_record on what was written
+//@ symbolic: node id and transaction id of a data record and a commit marker (0..=250)
+//@ bound: log of two records (DeleteNode, TxCommit) in Sync mode
+//@ oracle: every byte of both frames is on disk and below the synced watermark once log() of the commit marker returns; the reader accepts exactly two frames and then reports a clean end of log (writer and reader agree on the frame format)
+#[kani::proof]
+#[kani::unwind(38)]
+#[kani::stub(alloc::fmt::format, fmt_stub)]
+#[kani::stub(<std::fs::File as std::io::Read>::read, file_read_stub)]
+#[kani::stub(<std::fs::File as std::io::Read>::read_buf, file_read_buf_stub)]
+#[kani::stub(<std::fs::File as std::io::Write>::write, file_write_stub)]
+#[kani::stub(<std::fs::File as std::io::Write>::flush, file_flush_stub)]
+#[kani::stub(std::fs::File::sync_all, file_sync_all_stub)]
+#[kani::stub(std::time::Instant::now, instant_now_stub)]
+#[kani::stub(parking_lot::RawMutex::lock_slow, mx_lock_slow)]
+#[kani::stub(parking_lot::RawMutex::unlock_slow, mx_unlock_slow)]
+#[kani::stub(crc32fast::hash, crc32_model)]
+#[kani::stub(bincode::serde::decode_from_slice, decode_any)]
+fn c06_sync_mode_commit_is_durable_and_readable() {
+    use grafeo_adapters::storage::wal::{DurabilityMode, WalConfig, WalManager};
+    let (nid, tid): (u64, u64) = (kani::any(), kani::any());
+    kani::assume(nid <= 250 && tid <= 250);
+    unsafe { DLEN = 0; DPOS = 0; SYNCED = 0; }
+    let cfg = WalConfig { durability: DurabilityMode::Sync, max_log_size: 1 << 20, compression: false };
+    let wal = WalManager::verif_with_file(std::path::PathBuf::new(), cfg, a_file(), 0, instant_now_stub());
+    let r1 = wal.log(&WalRecord::DeleteNode { id: NodeId::new(nid) });
+    assert!(r1.is_ok());
+    let r2 = wal.log(&WalRecord::TxCommit { tx_id: TxId::new(tid) });
+    assert!(r2.is_ok());
+    let written = unsafe { DLEN };
+    assert!(written == 20, "two 2-byte payload frames are 20 bytes");
+    assert!(unsafe { SYNCED } == written, "Sync mode: a commit marker must be on stable storage when log() returns");
+    assert!(wal.record_count() == 2);
+    // the reader accepts exactly what the writer wrote
+    let rec = WalRecovery::new("w");
+    let mut rd = BufReader::with_capacity(DISK_CAP, a_file());
+    let a = rec.verif_read_record(&mut rd); assert!(matches!(&a, Ok(Some(_))));
+    let b = rec.verif_read_record(&mut rd); assert!(matches!(&b, Ok(Some(_))));
+    let c = rec.verif_read_record(&mut rd); assert!(matches!(&c, Ok(None)));
+    kani::cover!(nid == 250);
+    std::mem::forget((r1, r2, a, b, c, rd, rec, wal));
 }
